@@ -155,6 +155,10 @@ func filewValue(p *Program, io *StageIO, t *T, n int64, dir, tag string, pad *in
 		if dir == "" {
 			return Str("@" + d)
 		}
+		if mode == 7 {
+			// the directory named with a trailing slash
+			return Str(dir + "/" + d + "/")
+		}
 		return Str(dir + "/" + d)
 	case TString:
 		return write(tag + ".str.dat")
